@@ -216,6 +216,10 @@ func leaves() []leaf {
 		{Name: "[][]int", Go: "[][]int", Kinds: []string{"array<array<integer>>"}},
 		{Name: "map[string]int", Go: "map[string]int", Kinds: []string{"map<integer>"}},
 		{Name: "map[string][]string", Go: "map[string][]string", Kinds: []string{"map<array<string>>"}},
+		// element types about which nothing is known: the array must still say what its items are
+		{Name: "[]any", Go: "[]any", Kinds: []string{"array<object>", "array<<untyped>>"}},
+		{Name: "[][]interface{}", Go: "[][]interface{}", Kinds: []string{"array<array<object>>", "array<array<<untyped>>>"}},
+		{Name: "map[string][]any", Go: "map[string][]any", Kinds: []string{"map<array<object>>", "map<array<<untyped>>>"}},
 		enum("ES", "string", "string", [][2]string{{"A", `"a"`}, {"B", `"b"`}}),
 		enum("ESe", "string", "string", [][2]string{{"None", `""`}, {"A", `"a"`}, {"B", `"b"`}}),
 		enum("EIz", "int", "integer", [][2]string{{"Zero", "0"}, {"Neg", "-1"}, {"Two", "2"}}),
